@@ -155,6 +155,14 @@ func cmdCheck(args []string) {
 		}
 	}
 	SolveAll(items, vcDir, 16, quickSec, slowSec, cross)
+	if *prop == "C17" {
+		cr := e.detObligations()
+		results = append(results, cr)
+		for _, o := range cr.Obls {
+			owner[o] = cr
+		}
+		keys = append(keys, cr.Key)
+	}
 	if *prop == "C16" {
 		cr := e.raceClosureObligations()
 		results = append(results, cr)
@@ -340,6 +348,10 @@ func cmdCheck(args []string) {
 		trusted = append(trusted, "axiom "+ax.Name+": "+ax.Src)
 	}
 	level := "proof"
+	if *prop == "C17" {
+		// a sufficient syntactic condition checked over SSA, not an SMT proof
+		level = "other"
+	}
 	if len(keys) == 0 {
 		brokenCheck = append(brokenCheck, "no function carries property "+*prop)
 	}
@@ -376,6 +388,9 @@ func cmdCheck(args []string) {
 		"bounded":                  boundedInfo,
 		"broken_check":             brokenCheck,
 		"vc_dir":                   vcDir,
+	}
+	if level == "other" {
+		cov["explanation"] = "effect contract `deterministic(rand)`: every function reachable from NewPopulation, SequentialPopulationEpochExecutor.NextEpoch and Genome.Genesis is scanned in SSA form for the constructs through which a Go program can depend on anything but its inputs and the seeded math/rand stream (map iteration, go, multi-way/blocking select, time/os/runtime/reflect/unsafe/crypto-rand calls, pointer-to-integer conversion, re-seeding). One obligation per function; all must be clean. A sufficient condition, decided syntactically; the run-twice harness in the thorough tier only confirms refutations."
 	}
 	ev := map[string]interface{}{
 		"property_id": *prop,
